@@ -446,6 +446,18 @@ def rule_config(ctx) -> None:
     chk.decide(ok_h, "C11.config-keys", f"{REG}::config_as_hexstring", "prefix-less hex strings are written and read under the same switch", "hex-string switch differs between writer and reader", "", A.loc(REG, ghv.node))
 
 
+def rule_numeric_strings(ctx) -> None:
+    """C11.value_to_int*: numeric strings given to set_value/load_yml_config are converted by value_to_int (rules shared with C20);
+    C11.enum-constant: an enum constant keeps the value of the specification (an oversize constant must stay oversize so that writing it is refused)."""
+    from . import c20
+    ctx.borrow(c20.rule_value_to_int, "C20.value_to_int", "C11.value_to_int")
+    chk = ctx.chk
+    init = ctx.own(REG, "RegsEnum", "__init__")
+    stores = [s for s in ast.walk(init.node) if isinstance(s, (ast.Assign, ast.AugAssign)) and norm(s.targets[0] if isinstance(s, ast.Assign) else s.target) == "self.value"]
+    ok = len(stores) == 1 and isinstance(stores[0], ast.Assign) and norm(stores[0].value) == "value_to_int(value)"
+    chk.decide(ok, "C11.enum-constant", init.qual, "self.value = value_to_int(value), stored once and not modified", "; ".join(norm(s) for s in stores), "", A.loc(REG, init.node))
+
+
 def run(ctx) -> None:
     ctx.chk.explain("C11: RegsBitField.set_value/get_value and Register.set_value/get_value are evaluated by the guard evaluator as functions over small bit-vectors and object "
                     "graphs (widths 1-8, neighbours set and clear, pre-processing shift, raw flags, grouped registers in both orders) against the bit-vector reference; enum lookup "
@@ -456,6 +468,7 @@ def run(ctx) -> None:
     ctx.rule(rule_register)
     ctx.rule(rule_purity)
     ctx.rule(rule_config)
+    ctx.rule(rule_numeric_strings)
     ctx.chk.assumptions = ["value_to_int/value_to_bytes as decided in C20", "alternative widths are modelled as the full width (alt-width behaviour is not decided)",
                            "not decided: arbitrary operation sequences (per-operation frame conditions are), config processors other than SHIFT_RIGHT"]
 
